@@ -25,6 +25,8 @@ CTRL = 'midi_types::message::Control'
 PROG = 'midi_types::message::Program'
 QF = 'midi_types::message::QuarterFrame'
 
+RX_FIELDS = {'parser', 'channel', 'note_num', 'velocity', 'pitch_bend', 'mod_wheel', 'volume', 'vcf_cutoff', 'vcf_resonance', 'portamento_time',
+             'portamento_enabled', 'sustain_enabled', 'gate', 'rising_gate', 'falling_gate', 'retrigger_mode', 'note_priority', 'held_down_notes'}
 CONTROLLER_FIELDS = ['pitch_bend', 'mod_wheel', 'volume', 'vcf_cutoff', 'vcf_resonance', 'portamento_time',
                      'portamento_enabled', 'sustain_enabled']
 # transcription of C18: controller number -> (field, kind)
@@ -220,7 +222,7 @@ def check_edges_and_held(res, facts, prop):
                     mname, ps['lname'], ps['gate'], ps['rising'], ps['falling'], ps['retrig'], prio)
                 if not outs:
                     res.ob('R-SUMMARY', inst, False, 'no outcome')
-                for o in outs:
+                for o in sem_iter(outs):
                     if o.status != 'returned':
                         res.ob('R-SUMMARY', inst, False, 'path ends with %s: %s' % (o.status, o.panic_info),
                                where=where_of(facts, RX + '::parse'))
@@ -330,7 +332,7 @@ def held_obligations(res, facts, inst, ps, mname, prio, pre, post, o, msg):
         res.ob('R-HELD', inst + '|gate', g is False, 'gate after All-Notes-Off = %r' % (post.get('gate'),), where, key='R-HELD:gate:%s' % inst)
         res.ob('R-HELD', inst + '|retain-note', same(pre.get('note_num'), post.get('note_num')), 'note_num changed', where, key='R-HELD:keepnote:%s' % inst)
     else:
-        ch = changed_fields(pre, post)
+        ch = spec_fields_changed(pre, post, RX_FIELDS)
         bad = [c for c in ch if c in ('held_down_notes', 'gate', 'note_num', 'velocity')]
         res.ob('R-HELD', inst + '|unrelated', not bad, 'fields changed by an unrelated message: %s' % bad, where, key='R-HELD:unrelated:%s' % inst)
     # I1 inductive: gate <=> list non-empty
@@ -352,9 +354,9 @@ def check_setters(res, facts):
             pre = copy.deepcopy(rx)
             outs, cell = run_method(it, st, RX + '::' + meth, rx, [make_enum(facts, enum, v)])
             res.absorb(it)
-            for o in outs:
+            for o in sem_iter(outs):
                 post = o.cells[cell]
-                ch = changed_fields(pre, post)
+                ch = spec_fields_changed(pre, post, RX_FIELDS)
                 ok = o.status == 'returned' and set(ch) <= {fieldname} and isinstance(post.get(fieldname), EnumV) and post.get(fieldname).variant == variant_index(facts, enum, v)
                 res.ob('R-WRITESET', '%s(%s)' % (meth, v), ok, 'changed fields: %s' % ch, where_of(facts, RX + '::' + meth))
 
@@ -371,9 +373,9 @@ def check_edge_getters(res, facts):
             pre = copy.deepcopy(rx)
             outs, cell = run_method(it, st, RX + '::' + meth, rx, [])
             res.absorb(it)
-            for o in outs:
+            for o in sem_iter(outs):
                 post = o.cells[cell]
-                ch = changed_fields(pre, post)
+                ch = spec_fields_changed(pre, post, RX_FIELDS)
                 ret = bool_of(o.ctx, o.ret)
                 after = bool_of(o.ctx, post.get(latch))
                 ok = o.status == 'returned' and ret == val and after is False and set(ch) <= {latch}
@@ -393,10 +395,10 @@ def check_level_getters(res, facts):
         pre = copy.deepcopy(rx)
         outs, cell = run_method(it, st, RX + '::' + g, rx, [])
         res.absorb(it)
-        for o in outs:
+        for o in sem_iter(outs):
             post = o.cells[cell]
-            ok = o.status == 'returned' and not changed_fields(pre, post) and same(o.ret, pre.get(g))
-            res.ob('R-GETTER', g, ok, 'returns %r, changed %s' % (o.ret, changed_fields(pre, post)), where_of(facts, RX + '::' + g))
+            ok = o.status == 'returned' and not spec_fields_changed(pre, post, RX_FIELDS) and same(o.ret, pre.get(g))
+            res.ob('R-GETTER', g, ok, 'returns %r, changed %s' % (o.ret, spec_fields_changed(pre, post, RX_FIELDS)), where_of(facts, RX + '::' + g))
             n += 1
     return n
 
@@ -420,13 +422,13 @@ def check_routing(res, facts):
     res.absorb(it)
     seen_cc = set()
     defaults = constructor_defaults(res, facts)
-    for o in outs:
+    for o in sem_iter(outs):
         if o.status != 'returned':
             res.ob('R-ROUTE', 'cc', False, 'path ends with %s: %s' % (o.status, o.panic_info), where)
             continue
         post = o.cells[cell]
         lo, hi = o.ctx.rng(cc)
-        ch = set(changed_fields(pre, post))
+        ch = set(spec_fields_changed(pre, post, RX_FIELDS))
         if lo == hi and int(lo) in CC_TABLE:
             n = int(lo)
             seen_cc.add(n)
@@ -447,7 +449,10 @@ def check_routing(res, facts):
                 else:
                     res.ob('R-ROUTE', 'cc%d->%s' % (n, field), ch <= {field} and isinstance(got, BoolV),
                            'changed %s; %s = %r' % (sorted(ch), field, got), where)
-                    switch_partitions(res, facts, rxf, n, field, where)
+                    with structural():
+                        switch_partitions(res, facts, rxf, n, field, where)
+                    from ..terms import set_sem
+                    set_sem(o.ctx)
             elif kind == 'reset':
                 ok = True
                 bad = []
@@ -483,12 +488,12 @@ def check_routing(res, facts):
     res.absorb(it)
     v14 = msb.scale(128) + lsb
     n_pb = 0
-    for o in outs:
+    for o in sem_iter(outs):
         if o.status != 'returned':
             res.ob('R-ROUTE', 'pitch_bend', False, 'path ends with %s: %s' % (o.status, o.panic_info), where)
             continue
         post = o.cells[cell]
-        ch = set(changed_fields(pre, post))
+        ch = set(spec_fields_changed(pre, post, RX_FIELDS))
         got = post.get('pitch_bend')
         lo, hi = o.ctx.rng(v14)
         if lo > 8192 or o.ctx.decide(cmp_term('Gt', v14, 8192)) is True:
@@ -527,7 +532,7 @@ def switch_partitions(res, facts, rxf, n, field, where):
         st.ctx.ranges[val.as_single_atom()] = (Fr(lo), Fr(hi))
         outs, cell, _ = run_parse(rxf, it, st, rx, option_some(msg))
         res.absorb(it)
-        for o in outs:
+        for o in sem_iter(outs):
             got = o.cells[cell].get(field)
             sw = bool_of(o.ctx, got)
             res.ob('R-ROUTE', 'cc%d->%s|val in [%d,%d]' % (n, field, lo, hi), o.status == 'returned' and sw is exp,
@@ -545,7 +550,7 @@ def constructor_defaults(res, facts):
     outs = it.run(st2)
     res.absorb(it)
     d = {}
-    for o in outs:
+    for o in sem_iter(outs):
         if o.status == 'returned' and isinstance(o.ret, StructV):
             for n in CONTROLLER_FIELDS:
                 d[n] = o.ret.get(n)
@@ -599,9 +604,9 @@ def check_frame(res, facts):
             res.ob('R-FRAME', cname, False, 'analysis failed: %s' % e, where)
             continue
         res.absorb(it)
-        for o in outs:
+        for o in sem_iter(outs):
             post = o.cells[cell]
-            ch = [c for c in changed_fields(pre, post) if not c.startswith('parser')]
+            ch = [c for c in spec_fields_changed(pre, post, RX_FIELDS) if not c.startswith('parser')]
             res.ob('R-FRAME', 'ignored:' + cname, o.status == 'returned' and not ch,
                    'message that must be ignored changes %s (status %s %s)' % (ch, o.status, o.panic_info or ''), where, key='R-FRAME:ignored:' + cname)
             n += 1
@@ -614,7 +619,7 @@ def check_frame(res, facts):
         byte = int_sym(st, 'byte', lo, hi)
         outs, cell, b = run_parse(rxf, it, st, rx, option_none(), byte=byte)
         res.absorb(it)
-        for o in outs:
+        for o in sem_iter(outs):
             calls = [x for x in o.notes if x[0] == 'parser_call']
             if cname == 'real-time':
                 ok = len(calls) <= 1 and all(c[1] == repr(byte.term) for c in calls)
@@ -687,7 +692,7 @@ def check_parser(res, facts):
                 continue
             res.absorb(it)
             inst = '%s x %s' % (sname, cname)
-            for o in outs:
+            for o in sem_iter(outs):
                 n += 1
                 if o.status != 'returned':
                     res.ob('R-PARSER', inst, False, 'path ends with %s: %s' % (o.status, o.panic_info), where, key='R-PARSER:' + inst)
